@@ -3,6 +3,7 @@ import BeffVerif.Driver.BddOps
 import BeffVerif.Driver.ShaOps
 import BeffVerif.Driver.RtOps
 import BeffVerif.Driver.ProgOps
+import BeffVerif.Driver.SchemaOps
 /-! Line-protocol driver: one request S-expression per line on stdin, one reply per line on stdout. -/
 open BeffVerif
 
@@ -13,6 +14,7 @@ def hyps (req : Sexp) : Option Sexp :=
   | .list [.atom "prog", _, prog, _, .list vals] => some (Driver.progSpec prog vals)
   | .list [.atom "rewrite", _, p, _, _, q, _, .list script] => some (Driver.rewriteHyps p q script)
   | .list [.atom "describe", _, prog, _, _] => some (Driver.describeHyps prog)
+  | .list [.atom "schema-ctx", env, .list rts, .str template, _, .list ovs, .list calls, _] => some (Driver.schemaHyps env rts template ovs calls)
   | _ => none
 
 def handle (req : Sexp) : Sexp :=
@@ -24,6 +26,8 @@ def handle (req : Sexp) : Sexp :=
   | .list [.atom "prog", _, prog, _, .list vals] => Driver.progOp prog vals
   | .list [.atom "rewrite", _, p, _, .list vals, q, _, _] => Driver.rewriteOp p q vals
   | .list [.atom "describe", _, prog, _, _] => Driver.describeOp prog
+  | .list [.atom "schema-ctx", env, .list rts, .str template, container, .list ovs, .list calls, _] =>
+    Driver.schemaCtxOp env rts template (match container with | .str k => some k | _ => none) ovs calls
   | _ => .list [.atom "bad-op"]
 
 partial def loop (h : IO.FS.Stream) (out : IO.FS.Stream) : IO Unit := do
